@@ -42,7 +42,104 @@ FIELD_SOURCE = {'quantized_start_step': 'start_time', 'quantized_end_step': 'end
                 'total_quantized_steps': 'total_time'}
 
 
+REJECTIONS = [
+    # (function, exception class, inside a loop over the repeated field?, attributes the guard must read, [(values by attribute, reached?)], what is decided)
+    ('quantize_note_sequence', 'MultipleTimeSignatureError', False, ('time', 'numerator', 'denominator'),
+     [({'time': 1, 'numerator': 4, 'denominator': 4}, False), ({'time': 1, 'numerator': 3, 'denominator': 4}, True), ({'time': 1, 'numerator': 4, 'denominator': 8}, True),
+      ({'time': 0, 'numerator': 3, 'denominator': 8}, False)], 'a first time signature after time 0 is an implicit change unless it is 4/4'),
+    ('quantize_note_sequence', 'MultipleTempoError', False, ('time', 'qpm'),
+     [({'time': 1, 'qpm': 120}, False), ({'time': 1, 'qpm': 100}, True), ({'time': 0, 'qpm': 100}, False)], 'a first tempo after time 0 is an implicit change unless it is the default 120 qpm'),
+    ('quantize_note_sequence', 'BadTimeSignatureError', False, ('numerator',),
+     [({'numerator': 0}, True), ({'numerator': 1}, False), ({'numerator': 7}, False)], 'a zero numerator is rejected, every other numerator is not'),
+    ('_quantize_notes', 'NegativeTimeError', True, ('quantized_start_step', 'quantized_end_step'),
+     [({'quantized_start_step': -1, 'quantized_end_step': 3}, True), ({'quantized_start_step': 0, 'quantized_end_step': 1}, False), ({'quantized_start_step': 2, 'quantized_end_step': -1}, True)],
+     'a note is rejected as soon as one of its steps is negative'),
+    ('_quantize_notes', 'NegativeTimeError', True, ('quantized_step',),
+     [({'quantized_step': -1}, True), ({'quantized_step': 0}, False)], 'a control change / annotation is rejected when its step is negative'),
+]
+
+
+def rejection_scenarios(ctx, rule):
+  """Location-independent: each documented rejection is reached for exactly the inputs it is documented for.  The path
+  conditions of every raise site (enclosing tests and earlier early exits, expanded through locals) are evaluated three-valued
+  (sa.scenario) under a few value assignments to the attributes they read - all attribute reads with the same name get the same
+  value - and the outcome "reached / not reached" is compared with the table.  Raise sites are matched to a table row by
+  exception class and by the attributes their conditions read, never by position."""
+  from sa import scenario
+  done = set()
+  for fname, cls, in_loop, attrs, cases, what in REJECTIONS:
+    fi = ctx.func(SL + ':' + fname)
+    fn = fi.node
+    sites = []
+    for r in ast.walk(fn):
+      if not (isinstance(r, ast.Raise) and r.exc is not None):
+        continue
+      c = (dotted(r.exc.func) if isinstance(r.exc, ast.Call) else dotted(r.exc)) or ''
+      if c.split('.')[-1] != cls:
+        continue
+      # the tests that enclose the raise (its own guard); earlier rejections only decide which error comes first
+      conds = [(U.expand_locals(fn, t, at=r), p) for t, p in U.enclosing_tests(fn, r)]
+      read = set(x.attr for t, _p in conds for x in ast.walk(t) if isinstance(x, ast.Attribute))
+      if not set(attrs) <= read:
+        continue
+      # the same attribute read off two different objects is a comparison between elements (change detection), not a test of one element
+      bases = {}
+      for t, _p in conds:
+        in_lambda = set(id(y) for l_ in ast.walk(t) if isinstance(l_, ast.Lambda) for y in ast.walk(l_))      # sort keys
+        for x in ast.walk(t):
+          if isinstance(x, ast.Attribute) and x.attr in attrs and id(x) not in in_lambda:
+            bases.setdefault(x.attr, set()).add(norm_text(x.value))
+      if any(len(b) > 1 for b in bases.values()):
+        continue
+      sites.append((r, conds))
+    cons = '%s: %s' % (cls, what)
+    if not sites:
+      why = 'cannot classify: no raise of %s in %s whose conditions read %s' % (cls, fname, ', '.join(attrs))
+      ctx.ob(rule, fi, fn, False, why, construct=cons, unknown=why)
+      continue
+    for r, conds in sites:
+      rel = [(t, p) for t, p in conds if any(isinstance(x, ast.Attribute) and x.attr in attrs for x in ast.walk(t))]
+      for vals, want in cases:
+        pairs = []
+        for t, _p in rel:
+          for x in ast.walk(t):
+            if isinstance(x, ast.Attribute) and x.attr in vals:
+              pairs.append((norm_text(x), repr(vals[x.attr])))
+        got = scenario.tv_all(rel, scenario.subst_of(sorted(set(pairs))))
+        sc = ', '.join('%s = %s' % kv for kv in sorted(vals.items()))
+        if got is None:
+          why = 'cannot classify: the conditions of %s cannot be evaluated for %s' % (norm_text(r)[:50], sc)
+          ctx.ob(rule, fi, r, False, why, construct=cons + ' [%s]' % sc, unknown=why)
+        else:
+          ctx.ob(rule, fi, r, got == want, 'for %s the rejection is %s' % (sc, 'reached' if got else 'not reached') if got == want else
+                 'for %s the %s is %s, but %s: its guard is %s' % (sc, cls, 'raised' if got else 'not raised', what,
+                                                                   ' and '.join(('' if p else 'not ') + '(' + norm_text(t) + ')' for t, p in rel)),
+                 construct=cons + ' [%s]' % sc, definite=True)
+
+
+def first_element_only(ctx, rule):
+  """Location-independent: after the change detection every remaining time signature / tempo equals the first in time order, and
+  only element 0 is kept (`del ...[1:]`).  A constant subscript other than 0 on those fields reads an element that may not
+  exist (a sequence with a single entry) or that is about to be deleted."""
+  fi = ctx.func(SL + ':quantize_note_sequence')
+  n = 0
+  for x in ast.walk(fi.node):
+    if isinstance(x, ast.Subscript) and not isinstance(x.slice, ast.Slice) and U.const_value(x.slice) is not None:
+      base = U.expand_locals(fi.node, x.value, at=x)
+      if any(isinstance(y, ast.Attribute) and y.attr in ('time_signatures', 'tempos') for y in ast.walk(base)):
+        n += 1
+        k = U.const_value(x.slice)
+        ctx.ob(rule, fi, x, k == 0, 'element 0 (the one that is kept)' if k == 0 else
+               '%s reads element %s of a field of which only element 0 is validated and kept: a sequence with a single entry raises IndexError, and otherwise an entry that is '
+               'about to be deleted is tested instead of the one that stays' % (norm_text(x), k), definite=True)
+  if n == 0:
+    why = 'cannot classify: quantize_note_sequence reads no element of time_signatures / tempos by constant index'
+    ctx.ob(rule, fi, fi.node, False, why, construct='the kept element is element 0', unknown=why)
+
+
 def run(ctx):
+  rejection_scenarios(ctx, 'ESC/rejection-scenarios')
+  first_element_only(ctx, 'FRAME/element-zero')
   mi = ctx.P.module(SL)
   rel = own.check_borrowed(ctx, SL + ':quantize_note_sequence', {'note_sequence': own.NS}, {}, ['note_sequence'])
   ab = own.check_borrowed(ctx, SL + ':quantize_note_sequence_absolute', {'note_sequence': own.NS}, {}, ['note_sequence'])
